@@ -45,6 +45,7 @@ type vfE2Cfg struct {
 	mtMs    int64 // default msg timeout
 	maxmtMs int64
 	maxreq  int64 // ms
+	maxmsg  int64 // --max-msg-size (0 = nsqd's default 1 MiB)
 }
 
 type vfE2Frame struct {
@@ -274,6 +275,9 @@ func (h *vfE2H) start(cfg vfE2Cfg) {
 	opts.MsgTimeout = time.Duration(cfg.mtMs) * time.Millisecond
 	opts.MaxMsgTimeout = time.Duration(cfg.maxmtMs) * time.Millisecond
 	opts.MaxReqTimeout = time.Duration(cfg.maxreq) * time.Millisecond
+	if cfg.maxmsg > 0 {
+		opts.MaxMsgSize = cfg.maxmsg
+	}
 	opts.QueueScanInterval = time.Hour
 	opts.QueueScanRefreshInterval = time.Hour
 	opts.ClientTimeout = 20 * time.Minute
@@ -315,7 +319,7 @@ func (h *vfE2H) start(cfg vfE2Cfg) {
 		h.guardGate.Load().(func())()
 	})
 	h.pubc = h.dial(0)
-	h.cmd(fmt.Sprintf("conf memq=%d maxfile=%d maxrdy=%d mt=%d maxmt=%d maxreq=%d", cfg.memq, cfg.maxfile, cfg.maxrdy, cfg.mtMs, cfg.maxmtMs, cfg.maxreq))
+	h.cmd(fmt.Sprintf("conf memq=%d maxfile=%d maxrdy=%d mt=%d maxmt=%d maxreq=%d maxmsg=%d", cfg.memq, cfg.maxfile, cfg.maxrdy, cfg.mtMs, cfg.maxmtMs, cfg.maxreq, cfg.maxmsg))
 	h.emit("reset", "ok")
 	h.emit(fmt.Sprintf("conf %d %d %d %d", cfg.memq, cfg.maxrdy, cfg.maxmtMs*1000000, cfg.maxreq), "ok")
 }
@@ -1337,6 +1341,45 @@ func (h *vfE2H) statsCheck() {
 		cmp("text", vfE2RowsText(tb, true), "", "", true)
 	} else {
 		h.fail("stats-http", "/stats answered %d", code)
+	}
+	// a channel filter WITHOUT a topic filter: every topic owning a channel of that name is reported,
+	// also one that sorts after a topic lacking it (plus a name no topic owns: empty answer)
+	cnames := map[string]bool{"vfe2_nosuch": true}
+	for _, tp := range h.sortedTopics() {
+		for _, ch := range tp.sortedChans() {
+			cnames[ch.name] = true
+		}
+	}
+	var cns []string
+	for n := range cnames {
+		cns = append(cns, n)
+	}
+	sort.Strings(cns)
+	for _, cf := range cns {
+		for _, ic := range []string{"", "false"} {
+			q := "channel=" + strings.ReplaceAll(cf, "#", "%23")
+			if ic != "" {
+				q += "&include_clients=" + ic
+			}
+			wc := ic != "false"
+			code, jb := h.httpGet("/stats?format=json&" + q)
+			if code != 200 {
+				h.fail("stats-http", "/stats?format=json&%s answered %d", q, code)
+				continue
+			}
+			rows, err := vfE2RowsJSON(jb, wc)
+			if err != nil {
+				h.fail("stats-json", "unparsable json for %s", q)
+				continue
+			}
+			cmp("json "+q, rows, "", cf, wc)
+			if code, tb := h.httpGet("/stats?" + q); code == 200 {
+				cmp("text "+q, vfE2RowsText(tb, wc), "", cf, wc)
+			} else {
+				h.fail("stats-http", "/stats?%s answered %d", q, code)
+			}
+			h.count("stats:query-channel-only")
+		}
 	}
 	for _, tp := range h.sortedTopics() {
 		filters := []string{""}
